@@ -7,6 +7,7 @@ import numqi
 from symnp import ir, scalars as S, arrays as A, facade
 from symnp.scalars import SC
 from . import common as H
+from . import torchsup as TS
 
 TOL = 1e-9
 
@@ -76,8 +77,17 @@ def dicke_ref_numeric(k, d):
     return out
 
 
+def abk_call(k, dB):
+    def f(arrs, as_torch):
+        return numqi.dicke.partial_trace_ABk_to_AB(arrs[0], numqi.dicke.get_partial_trace_ABk_to_AB_index(k, dB))
+    return f
+
+
 def replay(p):
     what = p['what']
+    if what == 'abk_backend':
+        bad, msg = TS.replay_backend(abk_call(p['k'], p['dB']), [_c(p, 'psi')])
+        return bad, f"partial_trace_ABk_to_AB dA={p['dA']} dB={p['dB']} k={p['k']}: {msg}"
     if what == 'ptrace':
         rho = _c(p, 'rho')
         dims, keep = p['dims'], p['keep']
@@ -133,7 +143,7 @@ def run(chk):
     chk.fn('numqi.utils.partial_trace', 'numqi.dicke.get_dicke_basis', 'numqi.dicke._dicke_hf0', 'numqi.dicke.get_dicke_klist',
            'numqi.dicke.get_partial_trace_ABk_to_AB_index', 'numqi.dicke.partial_trace_ABk_to_AB', 'numqi.dicke.get_dicke_number')
     chk.register_replayer('c17', replay)
-    chk.out_of_claim('torch backend; dimension lists / (dimA,dimB,k) above the bounds; float rounding')
+    chk.out_of_claim('torch backend of functions other than partial_trace_ABk_to_AB (partial_trace is NumPy-only code); dimension lists / (dimA,dimB,k) above the bounds; float rounding')
     ctx = S.new_ctx()
     dim_lists = [dl for L in (2, 3) for dl in itertools.product((2, 3), repeat=L) if np.prod(dl) <= (12 if quick else 27)]
     if not quick:
@@ -252,6 +262,13 @@ def run(chk):
             import numpy as _np
             want = _np.einsum(conc.reshape(*dims, *dims), list(range(len(dims))) + [len(dims)] + list(range(1, len(dims))), [0, len(dims)])
             chk.validation(1, [] if H.close(H.eval_array(got, env), want, 1e-9) else [f'partial_trace {dims} symbolic vs numeric differ'])
+    # ---- PyTorch branch of partial_trace_ABk_to_AB == NumPy branch on the same symbolic vector
+    trng = random.Random(chk.seed + 1)
+    for dA, dB, k in abk:
+        nk = math.comb(k + dB - 1, dB - 1)
+        psi = H.cx_array(f'tpsi{dA}{dB}{k}', (dA, nk))
+        rp = ('c17', lambda m, psi=psi, dA=dA, dB=dB, k=k: payload(m, {'psi': psi}, what='abk_backend', dA=dA, dB=dB, k=k))
+        TS.backend_equiv(chk, f'partial_trace_ABk_to_AB[dA={dA},dB={dB},k={k}]', abk_call(k, dB), [psi], rp, 'partial_trace_ABk_to_AB', rng=trng)
     chk.notes_from(ctx)
     chk.assume('Dicke normalisation constants 1/sqrt(m), sqrt(k_i k_j)/n computed in floats by the code are lifted to exact algebraic numbers when they match within 4 ulp')
     chk.solve(timeout_s=60 if quick else 300)
